@@ -9,9 +9,19 @@ import (
 	"github.com/titpetric/vuego/internal/parser"
 )
 
+// maxIncludeDepth is the maximum length of a chain of nested <template include> tags.
+const maxIncludeDepth = 100
+
 // evalInclude processes a <template include="..."> tag with the given vars map.
 // Handles stack push/pop properly using defer to ensure cleanup even on error.
 func (v *Vue) evalInclude(ctx VueContext, node *html.Node, vars map[string]any, depth int) ([]*html.Node, error) {
+	// A component that includes itself, directly or through other files, would recurse
+	// until the stack is exhausted. Bound the inclusion chain like the layout chain.
+	if len(ctx.TemplateStack) > maxIncludeDepth {
+		return nil, fmt.Errorf("include depth exceeded maximum of %d, possible circular include: %s -> %s",
+			maxIncludeDepth, ctx.FormatTemplateChain(), helpers.GetAttr(node, "include"))
+	}
+
 	ctx.stack.Push(vars)
 	defer ctx.stack.Pop()
 
